@@ -54,6 +54,8 @@ def positions(e, prod, pvar='p', env=None):
                 out.append(x.slice.value)
             elif isinstance(x, ast.Name) and x.id in env and env[x.id][0] == 'sym' and prod.rhs[env[x.id][1]] != prod.name:
                 out.append(env[x.id][1])
+            elif isinstance(x, ast.Starred):
+                out.extend(positions(x.value, prod, pvar, env))         # [*head, *tail]: the elements of a token list, in place
             else:
                 raise AnalysisError(f'raw_query action: unmodelled list element `{norm(x)}`')
         return out
@@ -150,10 +152,33 @@ def run(ctx):
                        f'the single-token raw_query action returns `{norm(rets[0].value)}` instead of the token itself',
                        file=g.file, line=fn.lineno)
             continue
-        pos = positions(rets[0].value, p, pvar, local_bindings(fn, p, pvar))
-        ctx.ob('C16.order-preserving', f'{p}', pos == list(range(len(p.rhs))),
-               f'raw_query action for `{p}` returns RHS positions {pos} - every token must be kept exactly once, in order '
-               f'(expected {list(range(len(p.rhs)))})', file=g.file, line=fn.lineno, witness='CREATE VIEW v AS (select f(a) from t)')
+        # the action interpreted (sa/interp.py) on a production record: terminals are token objects (p._slice[i] is the token, p[i] its text), a nested
+        # raw_query is a list of two token objects; the result must be all of them, once, in RHS order
+        from ..interp import Interp as _I, Obj as _O, Raised as _R, Env as _E
+        from ..grammar import prod_record
+        slice_, values, expected = [], [], []
+        for i, s_ in enumerate(p.rhs):
+            if s_ == p.name:
+                inner = [_O('Token', type='ID', value=f'n{i}a', _pos=i), _O('Token', type='ID', value=f'n{i}b', _pos=i)]
+                slice_.append(_O('YaccSymbol', type=s_, value=inner))
+                values.append(inner)
+                expected.extend(inner)
+            else:
+                tok = _O('Token', type=s_, value=s_.lower(), _pos=i)
+                slice_.append(tok)
+                values.append(tok.value)
+                expected.append(tok)
+        rec = prod_record(p, values)
+        rec['_slice'] = slice_
+        try:
+            got = _I.for_file(ctx.src, g.file, {}, {}).call_function(fn, [_O('Parser'), rec], {}, _E())
+            pos = [x.attrs.get('_pos') if isinstance(x, _O) else repr(x)[:20] for x in got] if isinstance(got, (list, tuple)) else repr(got)[:60]
+            ok_ = isinstance(got, (list, tuple)) and len(got) == len(expected) and all(a_ is b_ for a_, b_ in zip(got, expected))
+        except _R as r_:
+            pos, ok_ = f'raises {r_.exc_name}', False
+        ctx.ob('C16.order-preserving', f'{p}', ok_,
+               f'raw_query action for `{p}` returns the tokens of RHS positions {pos} - every token must be kept exactly once, in order '
+               f'(expected {[x.attrs["_pos"] for x in expected]})', file=g.file, line=fn.lineno, witness='CREATE VIEW v AS (select f(a) from t)')
         ctx.count('raw_query_actions')
     embed = [p for p in g.productions[1:] if p.name != RAW and RAW in p.rhs]
     ctx.setcount('embedding_productions', len(embed))
